@@ -158,7 +158,7 @@ def gen_types(rng, max_types=5, flat=False):
 
 
 def gen_world(rng, n_types=None, n_preds=None, n_funcs=None, n_consts=None, n_objs=None,
-              numeric=True, max_arity=2, ensure_subtype=True, untyped=False) -> W:
+              numeric=True, max_arity=2, ensure_subtype=True, untyped=False, name_clash=0.0) -> W:
     w = W()
     if untyped:
         w.types = []
@@ -197,6 +197,10 @@ def gen_world(rng, n_types=None, n_preds=None, n_funcs=None, n_consts=None, n_ob
             ar = rng.choice([0, 1, 1, 2] + ([3, 3] if max_arity >= 3 else []))
             ar = min(ar, max_arity)
             w.funcs[fnames[i]] = [(f"?a{j}", rng.choice(pool)) for j in range(ar)]
+        if name_clash and rng.random() < name_clash:
+            # predicates and functions have separate name spaces: a function named like a predicate, same parameters
+            pn = rng.choice(list(w.preds))
+            w.funcs[pn] = list(w.preds[pn])
     return w
 
 
